@@ -31,10 +31,9 @@ func (msg *MsgCreateVestingPool) Type() string {
 }
 
 func (msg *MsgCreateVestingPool) GetSigners() []sdk.AccAddress {
-	owner, err := sdk.AccAddressFromBech32(msg.Owner)
-	if err != nil {
-		panic(err)
-	}
+	// a malformed address gives an empty signer instead of a panic (as in the messages of cosmos-sdk): ValidateBasic
+	// reports it, and x/authz asks a wrapped message for its signers before anything validated it
+	owner, _ := sdk.AccAddressFromBech32(msg.Owner)
 	return []sdk.AccAddress{owner}
 }
 
